@@ -14,7 +14,7 @@ from .. import facts, hirq
 META = {
     "level": "other",
     "technique": "error-discipline classification of every Err-handling site (typed HIR) + accumulator→failing-exit dependence + sibling agreement across the validate sub-commands",
-    "claim": "Decides, for every function of the CLI's command modules, that no error is swallowed on a path to exit status 0 except at enumerated display-only sites; that per-file failure counters and validation issue lists guard a failing exit; and that main returns each sub-command's Result unchanged. Does not compare produced files or printed text with library state. Also: failing exits in error arms are taken on all paths; work lists are narrowed only by user-parameterised predicates; every requested name gets a slot in the library's batched extractor; truncated DBC string blocks fail. Wave 5: every BufWriter / LineWriter / csv::Writer created in anything the CLI commands reach is flushed with a checked result on every success path. Wave 6: listing/extraction rows follow the request order and are not re-resolved through a lossy lookup (shared with C09). Wave 7: a work item passed over by `continue` is counted or depends on a user option; selector arguments (level / index / id ..) are not clamped.",
+    "claim": "Decides, for every function of the CLI's command modules, that no error is swallowed on a path to exit status 0 except at enumerated display-only sites; that per-file failure counters and validation issue lists guard a failing exit; and that main returns each sub-command's Result unchanged. Does not compare produced files or printed text with library state. Also: failing exits in error arms are taken on all paths; work lists are narrowed only by user-parameterised predicates; every requested name gets a slot in the library's batched extractor; truncated DBC string blocks fail. Wave 5: every BufWriter / LineWriter / csv::Writer created in anything the CLI commands reach is flushed with a checked result on every success path. Wave 6: listing/extraction rows follow the request order and are not re-resolved through a lossy lookup (shared with C09). Wave 7: a work item passed over by `continue` is counted or depends on a user option; selector arguments (level / index / id ..) are not clamped. Wave 8: error-level prints of validate commands are followed by a failing exit on every path; flat output paths are handed out once; work lists come from the member-aware listfile reader; per-dimension findings fire for either dimension; patch priorities rank above the base.",
     "note": "Trusted: anyhow/`fn main() -> Result` maps Err to a non-zero exit; std::process::exit(n≠0). Display-only sites are an explicit table (function + scrutinee callee) with one reason each; a new swallowing site outside the table is a violation (fail closed).",
     "assumptions": ["library calls report failure through Result (their own truthfulness is C01–C18 territory)"],
     "explanation": "All functions under warcraft_rs::commands::* and main in the binary crate: match/if-let arms on Err, Result adapters that discard errors (ok, unwrap_or*, let _ =), error counters and validation issue lists, and the eight validate sub-commands.",
